@@ -359,7 +359,7 @@ def build_patterned_weight(ps, kind, dtype, info, name, leaf=False):
 
 
 def build(spec, kind='real', dtype=None, weight_hook=None, explicit_ids=False, range_domains=False,
-          node_prefix='v', edge_prefix='e', leaf_patterns=False, term_edge_prefix=None, start_last=False, ghosts=None, ext_twice=False, empty_id=False):
+          node_prefix='v', edge_prefix='e', leaf_patterns=False, term_edge_prefix=None, start_last=False, ghosts=None, ext_twice=False, empty_id=False, per_rule_ids=False):
     """Build an FGG from a spec through the public API.
     weight_hook(name, tensor) -> tensor|PatternedTensor lets callers wrap leaves / patterns.
     Returns (fgg, info) where info has the Node/Edge objects per rule for later inspection."""
@@ -382,15 +382,17 @@ def build(spec, kind='real', dtype=None, weight_hook=None, explicit_ids=False, r
         nodes = []
         def _explicit(i):
             return explicit_ids is True or (explicit_ids == 'mixed' and (ri + i) % 2 == 0)
+        # per_rule_ids: ids are unique within one right-hand side only (n0, n1, ... reused by every rule), as in hand-written JSON
+        rtag = '' if per_rule_ids else f'{ri}_'
         for j, nl in enumerate(r['nodes']):
             # empty_id: the first explicitly named node of every rule is named '' (a legal, falsy id)
-            v = fggs.Node(nls[nl], id=('' if (empty_id and j == 0) else f'{node_prefix}{ri}_{j}') if _explicit(j) else None)
+            v = fggs.Node(nls[nl], id=('' if (empty_id and j == 0) else f'{node_prefix}{rtag}{j}') if _explicit(j) else None)
             g.add_node(v); nodes.append(v)
         edges = []
         for k, e in enumerate(r['edges']):
             pre = term_edge_prefix if (term_edge_prefix is not None and e['label'] in spec['terminals']) else edge_prefix
             ed = fggs.Edge(els[e['label']], [nodes[a] for a in e['att']],
-                           id=f'{pre}{ri}_{k}' if _explicit(k + 1) else None)
+                           id=f'{pre}{rtag}{k}' if _explicit(k + 1) else None)
             g.add_edge(ed); edges.append(ed)
         if ext_twice and nodes:
             # an edit history of the external nodes: another tuple first (other arity / order), its type read, then the real one
